@@ -26,18 +26,22 @@ struct Out {
     compiled: bool,
 }
 
-fn check(src: &str, inputs: &Inputs, n: u64) -> Out {
+fn check(src: &str, inputs: &Inputs, n: u64, sched: bool, vm_only: bool) -> Out {
     let mut o = Out { fail: None, leaves: 0, calls: 0, accesses: 0, compiled: false };
     macro_rules! fail {
         ($sig:expr, $($arg:tt)*) => {{ o.fail = Some((format!("c05:{}", $sig), format!($($arg)*))); return o; }};
     }
-    let opts = RunOpts { n, sched: false, want_state: true, want_counts: false, want_trace: true };
+    let opts = RunOpts { n, sched, want_state: true, want_counts: false, want_trace: true };
     let vm = exec::run_vm(src, inputs, &opts);
     let a = match vm {
         Exec::Rejected(_) | Exec::NoIo => return o,
         Exec::Panic(stage, p) => {
             if p.msg.contains("verif-hooks: state") {
-                fail!(if p.msg.contains("cursor underflow") || p.msg.contains("cursor overflow") { "cursor-out-of-range" } else { "access-outside-storage" }, "VM {stage}: {}", p.msg);
+                let kind = if p.msg.contains("cursor underflow") || p.msg.contains("cursor overflow") { "cursor-out-of-range" } else { "access-outside-storage" };
+                // global initialisation runs against a dsp storage of 0 words (recorded finding on
+                // stateful calls at global scope): kept apart from accesses made by dsp
+                let at = if stage == "main" { ":main" } else { "" };
+                fail!(format!("{kind}{at}"), "VM {stage}: {}", p.msg);
             }
             // other crashes are C03's subject
             return o;
@@ -77,6 +81,11 @@ fn check(src: &str, inputs: &Inputs, n: u64) -> Out {
             }
         }
     }
+    if vm_only {
+        // shipped sources keep array / closure handles in state cells, which are runtime-specific:
+        // only the VM's accesses are judged against the layout there
+        return o;
+    }
     // VM words == WASM words (zero-extended) after every sample
     let wa = exec::run_wasm(src, inputs, &RunOpts { n, sched: false, want_state: true, want_counts: false, want_trace: false });
     if let Exec::Ran(b) = wa {
@@ -101,17 +110,17 @@ fn check(src: &str, inputs: &Inputs, n: u64) -> Out {
     o
 }
 
-fn finish(src: &str, inputs: &Inputs, n: u64, classes: Vec<String>, cx: &Cx) -> CaseResult {
+fn finish(src: &str, inputs: &Inputs, n: u64, sched: bool, vm_only: bool, classes: Vec<String>, cx: &Cx) -> CaseResult {
     let key = format!("{src}\u{1}{}\u{1}{n}", inputs.describe());
     let hash = hash64(key.as_bytes());
-    let direct = json!({"text": src, "input_kind": inputs.kind, "input_scale": inputs.scale, "n": n});
+    let direct = json!({"text": src, "input_kind": inputs.kind, "input_scale": inputs.scale, "n": n, "sched": sched, "vm_only": vm_only});
     if cx.dry {
         let mut r = CaseResult::discard("dry");
         r.render = Some(direct.clone());
         r.direct = Some(direct);
         return r;
     }
-    let o = check(src, inputs, n);
+    let o = check(src, inputs, n, sched, vm_only);
     let mut r = match &o.fail {
         Some((s, m)) => CaseResult::fail(hash, s.clone(), m.clone()),
         None => CaseResult::held(hash),
@@ -140,11 +149,30 @@ impl Prop for C05 {
     }
     fn spaces(&self, tier: Tier) -> Vec<Space> {
         match tier {
-            Tier::Quick => vec![Space { name: "gen", size: 3000, exhaustive: false, chunk: 60, case_timeout_s: 60.0, what: "generated programs biased to stateful call trees x run lengths" }],
-            Tier::Thorough => vec![Space { name: "gen", size: 120_000, exhaustive: false, chunk: 200, case_timeout_s: 60.0, what: "generated programs biased to stateful call trees x run lengths" }],
+            Tier::Quick => vec![
+                Space { name: "gen", size: 3000, exhaustive: false, chunk: 60, case_timeout_s: 60.0, what: "generated programs biased to stateful call trees x run lengths" },
+                Space { name: "corpus", size: 1500, exhaustive: false, chunk: 50, case_timeout_s: 60.0, what: "shipped sources (sum types, arrays, macros, scheduler, modules) and literal/operator mutants of them: VM accesses against the published layout" },
+            ],
+            Tier::Thorough => vec![
+                Space { name: "gen", size: 120_000, exhaustive: false, chunk: 200, case_timeout_s: 60.0, what: "generated programs biased to stateful call trees x run lengths" },
+                Space { name: "corpus", size: 40_000, exhaustive: false, chunk: 100, case_timeout_s: 60.0, what: "shipped sources and literal/operator mutants of them: VM accesses against the published layout" },
+            ],
         }
     }
-    fn run(&self, _space: &str, _index: u64, g: &mut Gen, cx: &Cx) -> CaseResult {
+    fn run(&self, space: &str, _index: u64, g: &mut Gen, cx: &Cx) -> CaseResult {
+        if space == "corpus" {
+            let (src, m) = c01::corpus_case(g, false);
+            // several delays in one function: recorded finding (the VM sizes all of them like the first)
+            if cx.excluded(c01::KF_MULTI_DELAY) && src.split("\nfn ").any(|f| f.matches("delay(").count() >= 2) {
+                let mut r = CaseResult::discard("excluded-by-known-finding");
+                r.count(&format!("excluded_by_known_finding:{}", c01::KF_MULTI_DELAY), 1);
+                return r;
+            }
+            let inputs = gen_inputs(g);
+            let n = *g.pick(&[8u64, 4, 16, 24]);
+            let sched = src.contains('@') || src.contains("_mimium_schedule_at");
+            return finish(&src, &inputs, n, sched, true, vec![format!("mut:{m}"), "mode:corpus".to_string()], cx);
+        }
         let (mut cfg, off) = c01::pcfg(cx);
         cfg.max_fns = 6;
         cfg.records = false;
@@ -161,7 +189,7 @@ impl Prop for C05 {
         let src = prog::render(&p, &Layout::default());
         let inputs = gen_inputs(g);
         let n = *g.pick(&[8u64, 4, 16, 3, 32, 64]);
-        let mut r = finish(&src, &inputs, n, feat.classes(), cx);
+        let mut r = finish(&src, &inputs, n, false, false, feat.classes(), cx);
         for id in off {
             r.count(&format!("generator_switch_off:{id}"), 1);
         }
@@ -174,7 +202,9 @@ impl Prop for C05 {
         let t = input.get("text")?.as_str()?;
         let inputs = Inputs { kind: input.get("input_kind").and_then(|v| v.as_u64()).unwrap_or(1) as u8, scale: input.get("input_scale").and_then(|v| v.as_f64()).unwrap_or(1.0) };
         let n = input.get("n").and_then(|v| v.as_u64()).unwrap_or(8);
-        Some(finish(t, &inputs, n, vec![], cx))
+        let sched = input.get("sched").and_then(|v| v.as_bool()).unwrap_or(false);
+        let vm_only = input.get("vm_only").and_then(|v| v.as_bool()).unwrap_or(false);
+        Some(finish(t, &inputs, n, sched, vm_only, vec![], cx))
     }
     fn shrink_direct(&self, input: &Value) -> Vec<Value> {
         let Some(t) = input.get("text").and_then(|v| v.as_str()) else { return vec![] };
@@ -195,7 +225,7 @@ impl Prop for C05 {
         out
     }
     fn rule(&self) -> String {
-        "Cases are (program, input stream, run length) from the core-language generator with up to 6 helper functions, nested stateful calls, the same function at several sites, tuple-valued self and delays of different sizes. Oracle (VM, with the access-recording hook): every read/write/ring-buffer access on the dsp state storage coincides exactly (offset and size, compatible kind) with a leaf of Program::get_dsp_state_skeleton(); the storage length equals the layout's total size; the state cursor is 0 after every dsp call; cursor moves never under/overflow and no access leaves the storage (hook assertions). After every sample the VM state words equal the WASM state words zero-extended, and the WASM state never exceeds the layout size. Non-trivial = layout with >= 2 cells and a nested call, with >= 1 recorded access; distinct by source+inputs+length.".into()
+        "Cases are (program, input stream, run length) from the core-language generator with up to 6 helper functions, nested stateful calls, the same function at several sites, tuple-valued self and delays of different sizes. Oracle (VM, with the access-recording hook): every read/write/ring-buffer access on the dsp state storage coincides exactly (offset and size, compatible kind) with a leaf of Program::get_dsp_state_skeleton(); the storage length equals the layout's total size; the state cursor is 0 after every dsp call; cursor moves never under/overflow and no access leaves the storage (hook assertions). After every sample the VM state words equal the WASM state words zero-extended, and the WASM state never exceeds the layout size. A second space runs shipped sources and literal/operator mutants of them (with the scheduler where they use it) through the VM part of the oracle only. Non-trivial = layout with >= 2 cells and a nested call, with >= 1 recorded access; distinct by source+inputs+length.".into()
     }
     fn assumptions(&self) -> Vec<String> {
         vec!["accesses on closure-owned storages are only bounds-checked (hook assertion), not matched against the closure's own layout".into(), "a VM crash that is not a state-bounds assertion is left to C03".into()]
